@@ -691,7 +691,7 @@ def sequence_of_docs(ctx, left, docs, right, dangle=False, force_break=False):
             # Try to fit the comment at the end of the same line.
             flat_version = concat([
                 doc,
-                COMMA if not last else NIL,
+                COMMA if not last or dangle else NIL,
                 '  ',
                 commentdoc(comment_str),
                 HARDLINE if not last else NIL
@@ -703,7 +703,7 @@ def sequence_of_docs(ctx, left, docs, right, dangle=False, force_break=False):
                 commentdoc(comment_str),
                 HARDLINE,
                 doc,
-                COMMA if not last else NIL,
+                COMMA if not last or dangle else NIL,
                 HARDLINE if not last else NIL
             ])
             parts.append(
@@ -721,7 +721,7 @@ def sequence_of_docs(ctx, left, docs, right, dangle=False, force_break=False):
                     concat([COMMA, LINE])
                 )
 
-    if dangle:
+    if dangle and not (docs and is_commented(docs[-1])):
         parts.append(COMMA)
 
     outer = (
